@@ -10,14 +10,16 @@ PROPERTIES = {
             "relative to the kernel axioms K-prism, K1-K8 (each written once, listed as trusted): every return of Object.intersects "
             "(TypeError guard, planar-box/planar-box and planar-box/PolygonalRegion fast paths decided exactly as `the two point sets share "
             "a point`, default = exhaustive test on the occupied spaces), of MeshVolumeRegion.intersects (volume/volume arm, passes 1-5) and of "
-            "MeshVolumeRegion.containsObject (passes 1-5) agrees with overlap(self, other) / inside(obj, self)"
+            "MeshVolumeRegion.containsObject (passes 1-5) agrees with overlap(self, other) / inside(obj, self); Object.minimumDistanceTo takes the planar fast path only "
+            "when the planar distance of the bounding polygons is the gap of the two prisms (K9) and otherwise returns the exact distance of the occupied spaces; "
+            "Object._isPlanarBox is true exactly for boxes whose GLOBAL pitch and roll are 0; the bounded footprint handed to the mesh/footprint arms covers the requested slab for every request history"
         ),
         note="the kernels themselves (FCL, trimesh booleans/proximity, shapely) are trusted; configurations within tolerance of touching are outside the statement",
         assumptions=["kernel axioms K-prism, K1-K8 (see trusted_base)"],
         not_reached=[
             "FCL / trimesh / shapely kernels (trusted)",
             "MeshVolumeRegion.intersects: MeshSurfaceRegion and PolygonalFootprintRegion arms; MeshSurfaceRegion.intersects",
-            "Object.minimumDistanceTo, Object._boundingPolygon (affine matrix), MeshVolumeRegion._interiorPoint/_interiorPointRadii/_bodyCount (the helper values are axiomatised); "
+            "Object._boundingPolygon (affine matrix), MeshVolumeRegion.minimumDistanceTo (FCL, trusted as exact), MeshVolumeRegion._interiorPoint/_interiorPointRadii/_bodyCount (the helper values are axiomatised); "
             "MeshVolumeRegion._circumradius is under contract for the arm without a precomputed shape and Shape._circumradius for the per-shape radius, but the scaling/rigid-transform step between them is not",
             "PolygonalFootprintRegion.containsObject, GridRegion.containsObject",
         ],
